@@ -768,8 +768,12 @@ class ExcelCompiler:
             else:
                 ref_cell = None
 
-            self.range_todos.append(str(excel_data.address))
-            new_nodes = build_range(excel_data)
+            if str(excel_data.address) in self.cell_map:
+                # the range an unbounded range resolves to, is already built
+                new_nodes = []
+            else:
+                self.range_todos.append(str(excel_data.address))
+                new_nodes = build_range(excel_data)
             if ref_cell is not None:
                 # the reference depends on the range it refers to
                 new_nodes.append(ref_cell)
